@@ -282,6 +282,46 @@ func partI(r *ev.Run, table []*fn) {
 		})
 		r.Outcome("I2|" + f.target())
 	}
+	// ---- I3: a caller that changes the container it got must not change what the next caller gets
+	var nMut int64
+	var rows3 []string
+	for _, f := range table {
+		tuples := containerTuples(f, k)
+		tuples = append(tuples, emptyResultTuples(f, 2)...)
+		if len(tuples) == 0 {
+			continue
+		}
+		rows3 = append(rows3, f.target())
+		// clean pass first: only tuples that agree with Go before anybody changed a result are judged
+		var clean [][]val
+		for _, a := range tuples {
+			o, pan := callObject(f, a)
+			if sig, _ := verdict(f, f.gof(a), o, pan); sig == "" && pan == "" && o != nil && !isErr(o) {
+				clean = append(clean, a)
+			}
+		}
+		for _, a1 := range clean {
+			r1, _ := callObject(f, a1)
+			if !mutateResult(r1) {
+				continue
+			}
+			for _, a2 := range clean {
+				r2, pan := callObject(f, a2)
+				nMut++
+				if sig, obs := verdict(f, f.gof(a2), r2, pan); sig != "" {
+					a1, a2 := a1, a2
+					col.Lazy("result-shared-with-later-call:"+f.target(), 0, len(obs), func() (string, any, string, string) {
+						return fmt.Sprintf("object: r1 := %s; r1 is changed in place by its owner; then %s returns %s, Go says %s", describe(f, a1), describe(f, a2), ev.Clip(obs, 100), f.gof(a2)),
+							icase{Part: "I3", Route: "object", Target: f.target(), Args1: toks(a1), Args2: toks(a2)}, ev.Clip(obs, 200), f.gof(a2).String()
+					})
+				}
+			}
+		}
+		r.Eval(len(clean) * len(clean))
+		r.Outcome("I3|" + f.target())
+	}
+	r.Set("independence_mutated_result_rows", rows3)
+	r.Set("independence_mutated_result_pairs", int(nMut))
 	r.Set("independence_codec_pool_sizes", sizes)
 	r.Set("independence_codec_pairs_object", int(nPairs))
 	r.Set("independence_codec_pairs_script", int(nScript))
@@ -359,6 +399,57 @@ func containerTuples(f *fn, k int) [][]val {
 	return out
 }
 
+// emptyResultTuples finds up to k argument tuples on which f returns an empty list, map or byte_slice
+// (the natural candidate for a shared "nothing found" value).
+func emptyResultTuples(f *fn, k int) [][]val {
+	n := tupleCount(f)
+	var out [][]val
+	for idx := 0; idx < n && idx < 4000 && len(out) < k; idx++ {
+		a := tuple(f, idx)
+		if f.gof(a).kind != 'v' {
+			continue
+		}
+		o, pan := callObject(f, a)
+		if pan != "" || o == nil {
+			continue
+		}
+		switch o := o.(type) {
+		case *object.List:
+			if len(o.Value()) == 0 {
+				out = append(out, a)
+			}
+		case *object.Map:
+			if o.Size() == 0 {
+				out = append(out, a)
+			}
+		case *object.ByteSlice:
+			if len(o.Value()) == 0 {
+				out = append(out, a)
+			}
+		}
+	}
+	return out
+}
+
+// mutateResult changes a container the way its owner may: append to a list, add a key to a map,
+// flip the first byte of a byte_slice. Other results are left alone.
+func mutateResult(o object.Object) bool {
+	switch o := o.(type) {
+	case *object.List:
+		o.Append(object.NewString("<owner-added>"))
+		return true
+	case *object.Map:
+		o.Set("<owner-added>", object.NewInt(1))
+		return true
+	case *object.ByteSlice:
+		if v := o.Value(); len(v) > 0 {
+			v[0] ^= 0xff
+			return true
+		}
+	}
+	return false
+}
+
 func replayIndep(r *ev.Run, table []*fn, path string) {
 	var c icase
 	if err := ev.ReadReplay(path, &c); err != nil {
@@ -414,6 +505,28 @@ func replayIndep(r *ev.Run, table []*fn, path string) {
 		fmt.Printf("r1 := %s = %s\nr2 := %s\nr1 afterwards: %s\n", describe(f, a1), ev.Clip(snap, 200), describe(f, a2), ev.Clip(now, 200))
 		if now != snap {
 			col.Report("result-aliased:"+f.target(), "r1 changed after a later call", c, now, snap)
+		}
+	case "I3":
+		var f *fn
+		for _, t := range table {
+			if t.target() == c.Target {
+				f = t
+			}
+		}
+		a1, err1 := parseToks(c.Args1)
+		a2, err2 := parseToks(c.Args2)
+		if f == nil || err1 != nil || err2 != nil {
+			r.EngineError("replay: bad I3 case")
+			return
+		}
+		r1, _ := callObject(f, a1)
+		before := r1.Inspect()
+		mutateResult(r1)
+		r2, pan := callObject(f, a2)
+		sig, obs := verdict(f, f.gof(a2), r2, pan)
+		fmt.Printf("r1 := %s = %s, changed in place to %s\nthen %s = %s (Go: %s)\n", describe(f, a1), ev.Clip(before, 200), ev.Clip(r1.Inspect(), 200), describe(f, a2), ev.Clip(obs, 200), f.gof(a2))
+		if sig != "" {
+			col.Report("result-shared-with-later-call:"+f.target(), "a later call returns what an earlier caller changed", c, obs, f.gof(a2).String())
 		}
 	default:
 		r.EngineError("replay: unknown part " + c.Part)
